@@ -45,6 +45,20 @@ static void scriptSockets() {
   CALL("ctl_del", epoll_ctl(ep, EPOLL_CTL_DEL, sv[0], &ev)); CALL("ctl_del_again", epoll_ctl(ep, EPOLL_CTL_DEL, sv[0], &ev)); CALL("wait_after_del", epoll_wait(ep, out, 4, 0));
   close(sv[0]); close(ep);
 }
+static void scriptEdge() {   /* edge-triggered registrations */
+  int sv[2]; CALL("socketpair", socketpair(AF_UNIX, SOCK_STREAM, 0, sv)); fcntl(sv[0], F_SETFL, O_NONBLOCK); fcntl(sv[1], F_SETFL, O_NONBLOCK);
+  char b[128]; memset(b, 'e', sizeof b);
+  int ep = epoll_create1(0); struct epoll_event ev, out[4]; ev.events = EPOLLIN | EPOLLOUT | EPOLLET; ev.data.u64 = 9;
+  CALL("et_add", epoll_ctl(ep, EPOLL_CTL_ADD, sv[0], &ev)); CALL("et_wait_after_add", epoll_wait(ep, out, 4, 0)); R("et_ev_after_add", out[0].events); CALL("et_wait_again", epoll_wait(ep, out, 4, 0));
+  CALL("et_peer_send3", send(sv[1], b, 3, MSG_NOSIGNAL)); CALL("et_wait_in", epoll_wait(ep, out, 4, 0)); R("et_ev_in", out[0].events); CALL("et_wait_in_again", epoll_wait(ep, out, 4, 0));
+  CALL("et_recv3", recv(sv[0], b, 100, 0)); CALL("et_wait_after_recv", epoll_wait(ep, out, 4, 0));
+  CALL("et_peer_send2", send(sv[1], b, 2, MSG_NOSIGNAL)); CALL("et_peer_send2b", send(sv[1], b, 2, MSG_NOSIGNAL)); CALL("et_wait_two_sends", epoll_wait(ep, out, 4, 0)); R("et_ev_two_sends", out[0].events); CALL("et_wait_two_sends_again", epoll_wait(ep, out, 4, 0));
+  CALL("et_mod", epoll_ctl(ep, EPOLL_CTL_MOD, sv[0], &ev)); CALL("et_wait_after_mod", epoll_wait(ep, out, 4, 0)); R("et_ev_after_mod", out[0].events); CALL("et_wait_after_mod_again", epoll_wait(ep, out, 4, 0));
+  CALL("et_send10", send(sv[0], b, 10, MSG_NOSIGNAL)); CALL("et_wait_after_own_send", epoll_wait(ep, out, 4, 0));
+  CALL("et_peer_recv10", recv(sv[1], b, 100, 0)); CALL("et_wait_after_peer_read", epoll_wait(ep, out, 4, 0)); if (out[0].events) R("et_ev_after_peer_read", out[0].events);
+  close(sv[1]); CALL("et_wait_peer_closed", epoll_wait(ep, out, 4, 0)); R("et_ev_peer_closed", out[0].events); CALL("et_wait_peer_closed_again", epoll_wait(ep, out, 4, 0));
+  close(sv[0]); close(ep);
+}
 static void scriptEventfd() {
   int e = eventfd(0, EFD_NONBLOCK); uint64_t v = 0; CALL("read_zero", read(e, &v, 8)); v = 1; CALL("write1", write(e, &v, 8)); v = 2; CALL("write2", write(e, &v, 8)); v = 0; CALL("read", read(e, &v, 8)); R("value", (long)v); CALL("read_again", read(e, &v, 8));
   int ep = epoll_create1(0); struct epoll_event ev, out[2]; ev.events = EPOLLIN | EPOLLRDHUP | EPOLLHUP; ev.data.ptr = 0; epoll_ctl(ep, EPOLL_CTL_ADD, e, &ev); CALL("wait_none", epoll_wait(ep, out, 2, 0)); v = 1; (void)!write(e, &v, 8); CALL("wait_in", epoll_wait(ep, out, 2, 0)); R("ev", out[0].events & EPOLLIN);
@@ -107,7 +121,7 @@ static std::vector<std::string> runReal(void (*fn)()) { std::vector<std::string>
 
 int main() {
   int bad = 0;
-  struct { const char* name; void (*fn)(); } diff[] = {{"sockets+epoll", scriptSockets}, {"eventfd", scriptEventfd}, {"pipes+select+dup2", scriptPipes}, {"tcp loopback", scriptTcp}};
+  struct { const char* name; void (*fn)(); } diff[] = {{"sockets+epoll", scriptSockets}, {"edge-triggered epoll", scriptEdge}, {"eventfd", scriptEventfd}, {"pipes+select+dup2", scriptPipes}, {"tcp loopback", scriptTcp}};
   for (auto& d : diff) {
     std::vector<std::string> real = runReal(d.fn);
     bool unavailable = false; for (auto& r : real) if (r.find("bind=-1") == 0 || r.find("socketpair=-1") == 0 || r.find("accepted=0") == 0) unavailable = true;
